@@ -98,7 +98,7 @@ def _mat(M):
     return np.asarray(a, dtype=object)
 
 
-def _concrete(ne, seq, params, mats, state, gval, fval):
+def _concrete(ne, seq, params, mats, state, gval, fval, gvals=None):
     """The unproxied pipeline with plain floats (scipy spsolve): runs the steps of `seq` and returns the max violation
     of (documented update relations, discrete equation of motion on free dofs, prescribed value)."""
     mesh = simlib.line_mesh(ne, "SEG2", with_points=False)
@@ -113,7 +113,13 @@ def _concrete(ne, seq, params, mats, state, gval, fval):
         simu.add_neumann(np.array([n - 1]), [fval], ["t"])
     simu.solver = "scipy"
     worst = 0.0
-    for algo, (dt, alpha, beta, gamma) in zip(seq, params):
+    for istep, (algo, (dt, alpha, beta, gamma)) in enumerate(zip(seq, params)):
+        if gvals is not None:  # the prescribed value changes from step to step (conditions re-entered)
+            gval = gvals[istep]
+            simu.Bc_Init()
+            simu.add_dirichlet(np.array([0]), [gval], ["t"])
+            if fval is not None:
+                simu.add_neumann(np.array([n - 1]), [fval], ["t"])
         _set_algo(simu, algo, dt, alpha, beta, gamma)
         un, vn, an = simu._Get_u_n(pt), simu._Get_v_n(pt), simu._Get_a_n(pt)
         simu.Solve()
@@ -394,6 +400,11 @@ def job_switch(cfg):
         _set_algo(simu, a1, *p1)
         simu.Solve()
         s1 = (simu._Get_u_n(pt), simu._Get_v_n(pt), simu._Get_a_n(pt))
+        if cfg.get("release"):
+            # the prescribed value of the second step is the plain number 0 (a displacement pulse coming back to rest position): the
+            # constrained dof still carries the velocity / acceleration its update relations give it
+            simu.Bc_Init()
+            simu.add_dirichlet(np.array([0]), [0], ["t"])
         _set_algo(simu, a2, *p2)
         simu.Solve()
         s2 = (simu._Get_u_n(pt), simu._Get_v_n(pt), simu._Get_a_n(pt))
@@ -402,13 +413,13 @@ def job_switch(cfg):
     pcs = c.pc_since(mark)
     res.paths, res.path_conditions, res.symbols = 1, len(pcs), len(c.input_vids())
     res.functions |= {"_Simu.Solve", "_Simu._Solver_Solve_problemType", "_Simu._Set_solutions", "_Simu.Solver_Set_Hyperbolic_Algorithm"}
-    key = f"{a1}->{a2}"
+    key = f"{a1}->{a2}" + (" (second step prescribes 0)" if cfg.get("release") else "")
     dt, alpha, beta, gamma = p2
 
     def replay(env):
         mats = tuple(_num(c, env, m_) for m_ in simu.mats[g.elemType])
         prm = [tuple(_num(c, env, p_) if p_ is not None else 0.5 for p_ in pp) for pp in (p1, p2)]
-        v = _concrete(1, [a1, a2], prm, mats, [_num(c, env, un), _num(c, env, vn), _num(c, env, an)], _num(c, env, gD), None)
+        v = _concrete(1, [a1, a2], prm, mats, [_num(c, env, un), _num(c, env, vn), _num(c, env, an)], _num(c, env, gD), None, gvals=[_num(c, env, gD), 0.0] if cfg.get("release") else None)
         return v > 1e-9, {"relative_violation_on_concrete_replay": v, "parameters": prm,
                           "note": "same two-step sequence through the unproxied pipeline (floats, scipy spsolve)"}
 
@@ -423,9 +434,12 @@ def job_switch(cfg):
             r = r + M @ at
         res.record(f"{key}: second step equation", prove_abs_le(r[1], 0, pcs, key), replay, key=f"{key} second-step equation",
                    sample={"sequence": key, "obligation": "second step satisfies its scheme from the state produced by the first"})
-        res.record(f"{key}: second step velocity update", prove_abs_le(s2[1][1] - ov1[1], 0, pcs, key), replay, key=f"{key} second-step v")
-        if oa1 is not None:
-            res.record(f"{key}: second step acceleration update", prove_abs_le(s2[2][1] - oa1[1], 0, pcs, key), replay, key=f"{key} second-step a")
+        for d in range(n):  # free AND constrained dofs follow the documented update relations
+            res.record(f"{key}: second step velocity update (dof {d})", prove_abs_le(s2[1][d] - ov1[d], 0, pcs, key), replay, key=f"{key} second-step v")
+            if oa1 is not None:
+                res.record(f"{key}: second step acceleration update (dof {d})", prove_abs_le(s2[2][d] - oa1[d], 0, pcs, key), replay, key=f"{key} second-step a")
+        if cfg.get("release"):
+            res.record(f"{key}: second step holds the prescribed 0", prove_abs_le(s2[0][0], 0, pcs, key), replay, key=f"{key} second-step constrained dof")
     res.stubs |= facade.USED_STUBS
     return res
 
@@ -455,6 +469,8 @@ def main():
         switches += [("hht_newmark", "euler_implicit"), ("newmark", "euler_explicit"), ("euler_explicit", "newmark"), ("hht", "hht_newmark")]
     for a, b in switches:
         configs.append({"kind": "switch", "first": a, "second": b})
+    for a, b in ([("newmark", "newmark"), ("hht", "hht"), ("midpoint", "midpoint"), ("euler_implicit", "euler_implicit"), ("parabolic", "parabolic")] + ([("hht_newmark", "hht_newmark"), ("newmark", "hht")] if tier == "thorough" else [])):
+        configs.append({"kind": "switch", "first": a, "second": b, "release": True})
     results = harness.run_jobs(job, configs)
     harness.finish(
         PID, results, t0=t0,
